@@ -658,7 +658,7 @@ Lemma step_ok i rpms c oc : rpms_ok rpms -> cb_inv c ->
   (match oc with OPick _ mx _ _ => 0 <= mx < 2 ^ 32 | _ => True end) ->
   forallb okc (clause_op i rpms c oc (snd (step rpms c oc))) = true /\ cb_inv (fst (step rpms c oc)).
 Proof.
-  intros Hrp Hc Hop. destruct oc as [ws|r ws|num den|num den r|st mx fail rs| |k ws]; cbn [clause_op].
+  intros Hrp Hc Hop. destruct oc as [ws|r ws|num den|num den r|st mx fail rs| |k ws|m1 m2 k]; cbn [clause_op].
   - split; [apply clause_rw_all_ok|exact Hc].
   - split; [apply clause_rw_one_ok|exact Hc].
   - split; [apply clause_drop_all_ok|exact Hc].
@@ -668,6 +668,7 @@ Proof.
     destruct Hi as [Hn Ho]. rewrite Hn, Z.eqb_refl. split; [reflexivity|split; assumption].
   - split; [|exact Hc]. unfold clause_edf.
     destruct (negb _ || _); [reflexivity|]. reflexivity.
+  - split; [|exact Hc]. cbn [step snd forallb okc fst snd]. rewrite Z.eqb_refl. reflexivity.
 Qed.
 
 Lemma op_wf_spec op : op_wf op = true ->
@@ -716,7 +717,7 @@ Lemma step_cb_bound rpms c oc M : cb_inv c -> 0 <= M -> cb_out c <= M ->
   (match oc with OPick _ mx _ _ => 0 <= mx < 2 ^ 32 /\ mx <= M | _ => True end) ->
   cb_out (fst (step rpms c oc)) <= M.
 Proof.
-  intros Hc HM Hb Hop. destruct oc as [ws|r ws|num den|num den r|st mx fail rs| |k ws]; cbn [step fst]; try exact Hb.
+  intros Hc HM Hb Hop. destruct oc as [ws|r ws|num den|num den r|st mx fail rs| |k ws|m1 m2 k]; cbn [step fst]; try exact Hb.
   - destruct Hop as [Hmx Hle].
     destruct (pick_inv rpms c st mx fail rs Hc Hmx) as (_ & H0 & _ & Hn0 & _). cbn zeta in *.
     destruct (pick rpms c st mx fail rs) as [c' res]. cbn [fst snd] in *.
@@ -737,7 +738,7 @@ Proof.
     destruct (op_wf_spec op Hop) as (oc & Hd & Hmx). rewrite Hd in Hf.
     assert (Hrp: True) by exact I.
     assert (Hc': cb_inv (fst (step rpms c oc))).
-    { destruct oc as [ws|r0 ws|num den|num den r0|st mx fail rs| |k ws]; cbn [step fst]; try exact Hc.
+    { destruct oc as [ws|r0 ws|num den|num den r0|st mx fail rs| |k ws|m1 m2 k]; cbn [step fst]; try exact Hc.
       - destruct (pick_inv rpms c st mx fail rs Hc Hmx) as (Hi & _). cbn zeta in Hi.
         destruct (pick rpms c st mx fail rs). exact Hi.
       - apply done_inv, Hc. }
